@@ -57,6 +57,8 @@ class System:
         else:
             class Res:
                 data = a.cached_property(getter)
+        # an instance may well be falsy (an empty container): it is an instance all the same
+        Res.__len__ = lambda self_: 0
         Res.data.__set_name__(Res, "data")
         if (susp + len(cfg["scripts"])) % 2:
             # instances of a subclass that merely inherits the property (looked up through the MRO)
